@@ -42,6 +42,8 @@ func CheckRecursion(rootTypeName string, rootSchema *schema.Schema) error {
 		},
 		path:      []string{rootTypeName},
 		clean:     map[*schema.Schema]struct{}{},
+		walked:    map[*schema.Schema]map[string]struct{}{},
+		passed:    map[string]struct{}{},
 		rootTypes: rootSchema.TypesList(),
 	}
 
@@ -70,6 +72,16 @@ type recursionChecker struct {
 	// dropped a number of alternatives which were dropped 'cause they lead to
 	// a recursion. A walk which drops an alternative depends on the path.
 	dropped int
+
+	// walked the types which were walked with success though alternatives were
+	// dropped, each with a set of types its walk has passed. The walk of such
+	// a type ends with success again unless one of these types is on the path,
+	// so there is no need to walk it again until then.
+	walked map[*schema.Schema]map[string]struct{}
+
+	// passed a set of types which were walked with success during the walk of
+	// the current type. Types of a dropped alternative aren't there.
+	passed map[string]struct{}
 
 	// ref the reference being followed: the error of a recursion points at the
 	// one which closes the cycle.
@@ -212,14 +224,30 @@ func (c *recursionChecker) checkMixedValueNode(
 	return nil
 }
 
-func (c *recursionChecker) checkType(typeName string, types map[string]schema.Type) error {
+func (c *recursionChecker) checkType(typeName string, types map[string]schema.Type) (err error) {
 	if !c.visit(typeName) {
-		return c.createError()
+		err = c.createError()
+		// The type which closes the cycle is on the path for the error only.
+		c.path = c.path[:len(c.path)-1]
+		return err
 	}
 	defer c.leave(typeName)
 
 	defer func(name string) { c.current = name }(c.current)
 	c.current = typeName
+
+	// The outer type has passed this type and the types it has passed, if it
+	// was walked with success.
+	defer func(passed map[string]struct{}) {
+		if err == nil {
+			passed[typeName] = struct{}{}
+			for name := range c.passed {
+				passed[name] = struct{}{}
+			}
+		}
+		c.passed = passed
+	}(c.passed)
+	c.passed = map[string]struct{}{}
 
 	t := types[typeName]
 	// The properties a type inherits are as required as the ones written in it.
@@ -236,12 +264,34 @@ func (c *recursionChecker) checkType(typeName string, types map[string]schema.Ty
 		return nil
 	}
 
+	if passed, ok := c.walked[t.Schema()]; ok && !c.isVisitedAny(passed) {
+		for name := range passed {
+			c.passed[name] = struct{}{}
+		}
+		// The walk which isn't repeated has dropped alternatives.
+		c.dropped++
+		return nil
+	}
+
 	dropped := c.dropped
-	err := c.check(t.Schema().RootNode(), t.Schema().TypesList())
+	err = c.check(t.Schema().RootNode(), t.Schema().TypesList())
 	if err == nil && dropped == c.dropped {
 		c.clean[t.Schema()] = struct{}{}
 	}
+	if err == nil && dropped != c.dropped {
+		c.walked[t.Schema()] = c.passed
+	}
 	return err
+}
+
+// isVisitedAny returns true if at least one of given types is on the path.
+func (c *recursionChecker) isVisitedAny(typeNames map[string]struct{}) bool {
+	for name := range c.visited {
+		if _, ok := typeNames[name]; ok {
+			return true
+		}
+	}
+	return false
 }
 
 func (c *recursionChecker) visit(typeName string) bool {
